@@ -143,6 +143,11 @@ impl TTLTicker {
     pub(crate) fn verif_shards(&self) -> Vec<Vec<(KeyId, ExpireAfter)>> {
         self.shards.iter().map(|shard| shard.read().iter().map(|(key_id, expiry)| (*key_id, *expiry)).collect()).collect()
     }
+
+    /// Like `verif_shards`, but a shard whose lock is taken (a sweep is in progress) is reported as `None` instead of waiting.
+    pub(crate) fn verif_try_shards(&self) -> Vec<Option<Vec<(KeyId, ExpireAfter)>>> {
+        self.shards.iter().map(|shard| shard.try_read().map(|guard| guard.iter().map(|(key_id, expiry)| (*key_id, *expiry)).collect())).collect()
+    }
 }
 
 #[cfg(test)]
